@@ -117,14 +117,33 @@ Theorem C11_history_drivers_total : forall seq st t th have,
 Proof. exact history_drivers_total. Qed.
 Print Assumptions C11_history_drivers_total.
 
-(* _invalidate_cache (every rruleset mutator): mutators are not operations of the transition system; the
-   boundary is stated here.  With no operation in flight the invalidated state satisfies the invariant for
-   the NEW sequence (all theorems apply again); with a live iterator in its tail loop the next step raises
-   TypeError -- one face of the open finding F-C10-stale (C10, coq/rset/RSetHist.v has the other) *)
-Theorem C11_invalidate_without_live_iterators : forall seq seq' st,
-  Inv seq st -> forallb at_entry (thr st) = true -> Inv seq' (invalidate st).
-Proof. exact invalidate_without_live_iterators. Qed.
-Print Assumptions C11_invalidate_without_live_iterators.
+(* _invalidate_cache (every rruleset mutator).  Mutators are not operations of the transition system; they are
+   the boundary between two runs of it.  The real statement: iterate (ANY operations, ANY schedule), let every
+   operation finish (all_done), MUTATE (invalidate resets _cache/_cache_complete/_cache_gen/_len; the finished
+   threads stay), start ANY new operations and run ANY schedule against the NEW sequence seq':  the invariant
+   holds for the new threads (InvFrom (length ops): lock discipline over ALL threads, the cache is a prefix of
+   seq', every new thread satisfies thread_inv for seq'), every new thread has yielded a prefix of seq', and a
+   finished new operation returned its answer for seq'.  With a live iterator in its tail loop instead, the
+   next step raises TypeError -- one face of the open finding F-C10-stale (C10, coq/rset/RSetHist.v has the
+   other); that is the refuted witness below. *)
+Theorem C11_invalidate_then_iterate : forall seq seq' ops sched ops2 sched2,
+  all_done (reach seq ops sched) = true ->
+  let st := exec seq' true false sched2 (after_invalidate (reach seq ops sched) ops2) in
+  InvFrom (length ops) seq' st /\
+  forall t th, (length ops <= t)%nat -> nth_error (thr st) t = Some th ->
+    is_prefix (t_out th) seq' /\
+    (t_pc th = PDone -> exists r, t_res th = Some r /\ done_ok seq' (t_op th) r).
+Proof. exact invalidate_then_iterate. Qed.
+Print Assumptions C11_invalidate_then_iterate.
+
+(* count() returns the number of items the iteration yielded: `_len` is a FIELD of the shared state (lenp),
+   None until the generator's last statement publishes it; a finished count() read |seq| from it, under any
+   schedule and whatever the other threads did *)
+Theorem C11_count_returns_length : forall seq ops sched t th,
+  nth_error (thr (reach seq ops sched)) t = Some th -> t_op th = OCount -> t_pc th = PDone ->
+  t_res th = Some (Ret [Z.of_nat (length seq)]).
+Proof. exact count_returns_length. Qed.
+Print Assumptions C11_count_returns_length.
 
 Theorem C11_invalidate_live_iterator_refuted :
   (exists th, nth_error (thr (exec [1;2;3] true false (repeat 0%nat 26) (init [OList]))) 0 = Some th /\ t_pc th = PTWhile) /\
@@ -133,12 +152,16 @@ Theorem C11_invalidate_live_iterator_refuted :
 Proof. exact invalidate_live_iterator_refuted. Qed.
 Print Assumptions C11_invalidate_live_iterator_refuted.
 
-(* ---- the model is the code: gen/RCacheGen.v is REGENERATED from /repo/src/dateutil/rrule.py by
-   harness/gen_rcache.py on every run: _iter_cached as one instruction per source line (line offset, kind,
-   jump targets), _invalidate_cache / __init__ as shared-state functions.  Interpreting the generated table
-   with the generic meaning of each instruction IS the hand-written step function (code after bb46216, with
-   or without a raising generator), for every state, thread and program counter that is a line of
-   _iter_cached -- the "source line -> pc" correspondence is checked, not trusted *)
+(* ---- a CHECKED SYNTACTIC FINGERPRINT of the source: gen/RCacheGen.v is REGENERATED from
+   /repo/src/dateutil/rrule.py by harness/gen_rcache.py on every run: _iter_cached as one instruction TAG per
+   source line (line offset, kind, jump targets), _invalidate_cache / __init__ as shared-state functions.  The
+   MEANING of each tag is hand-written (RGenBase.exec_instr), so this theorem does not give an independent
+   semantics of the Python; what it gives: the shape the translator read from the source (which statement is
+   on which line, where each branch / loop / finally goes, the batch size) is exactly the shape the
+   hand-written step function assumes, for every state, thread and program counter that is a line of
+   _iter_cached -- the "source line -> pc" correspondence is checked, not trusted, and an edit of /repo that
+   changes the shape fails the build or the translator.  C11_gen_init_is_model and C11_gen_batch_is_model are
+   reflexivity on regenerated constants (definitional ties, listed as `tie_only` in the evidence). *)
 Theorem C11_gen_table_is_model : forall seq raises s t th k,
   line_of_pc (t_pc th) = Some k ->
   table_step seq raises gen_iter_cached s t th = line_step seq raises s t th.
